@@ -32,7 +32,7 @@ def r04_1(ctx):
 
 def r04_2(ctx):
     out = []
-    k = ctx.key_of('raw_cache::insert_or_touch')
+    k = ctx.helper('raw_cache::insert_or_touch')
     q = ctx.explore(k)
     links = q.prim_edges('publish_excl')
     if not links:
